@@ -70,4 +70,50 @@ def migrateFlowF (fresh : Nat → Value) (fadd : Bytes → Option Bytes) (cur : 
 def migrateFlow (fresh : Nat → Value) (fadd : Bytes → Option Bytes) (cur : Int) (f : Nat) (st : MigSt) (prev : Option VKey)
     (d : Dict) : Option (MigSt × Dict) := (migrateFlowF fresh fadd cur f st prev d).join
 
+/-! ### executable form of the shape under which `Props.C38.format_12_records_load` proves that a format-12 record loads -/
+
+/-- a value `decodeHostIn` accepts under a key: absent, falsy, or a list / str / bytes (same as `hostOkB` in Lemmas/C38_Succ) -/
+def hostOkM (o : Option Value) : Bool :=
+  match o with
+  | none => true
+  | some v => !truthy v || (match v with | .list _ => true | .str _ => true | .bytes _ => true | _ => false)
+
+def isNull : Option Value → Bool
+  | some .null => true
+  | _ => false
+
+def sniOkM (sc : Dict) : Bool :=
+  match dget sc (s "sni") with
+  | none => false
+  | some (.bool true) =>
+    (match dget sc (s "address") with
+     | some .null => true
+     | some (.list (_ :: _)) => true
+     | _ => false)
+  | some _ => true
+
+def connShapeB (cc sc : Dict) : Bool :=
+  (dget cc (s "tls_extensions")).isSome && (dget cc (s "tls_established")).isSome && hostOkM (dget cc (s "address")) &&
+  hostOkM (dget cc (s "sockname")) && (dget cc (s "tls_version")).isSome && (dget sc (s "tls_established")).isSome &&
+  hostOkM (dget sc (s "ip_address")) && hostOkM (dget sc (s "source_address")) && hostOkM (dget sc (s "address")) &&
+  (dget sc (s "tls_version")).isSome && sniOkM sc
+
+def respOkB (d : Dict) : Bool :=
+  match dget d (s "response") with
+  | some .null => true
+  | some (.dict r) => (match dget r (s "timestamp_start") with | some .null => false | some _ => true | none => false)
+  | _ => false
+
+def reqOkB (d : Dict) : Bool :=
+  match dget d (s "request") with
+  | some (.dict rq) => (dget rq (s "timestamp_start")).isSome
+  | _ => false
+
+/-- `Shape12 d ∧ ConnShape cc sc` for the record's own connection records, as a Bool the driver can print -/
+def shape12B (d : Dict) : Bool :=
+  (dget d (s "marked")).isSome && respOkB d && isNull (dget d (s "websocket")) && reqOkB d &&
+  (match dget d (s "client_conn"), dget d (s "server_conn") with
+   | some (.dict cc), some (.dict sc) => connShapeB cc sc
+   | _, _ => false)
+
 end MitmVerif.C38Conv
